@@ -21,7 +21,12 @@ REGISTRY = {}  # prop -> [Ob]
 class Ob:
     def __init__(self, prop, name, fn, tiers, timeout, engine, doc):
         self.prop, self.name, self.fn, self.tiers = prop, name, fn, tiers
-        self.timeout, self.engine, self.doc = timeout, engine, doc
+        self.timeout, self.engine, self._doc = timeout, engine, doc
+
+    @property
+    def doc(self):
+        # some obligation factories set __doc__ after registration
+        return (self.fn.__doc__ or self._doc or "").strip()
 
 
 def obligation(prop, name, *, engine, tiers=("quick", "thorough"), timeout=300):
